@@ -364,7 +364,14 @@ func (c *Ctx) checkSeqReported(fn *ssa.Function, incr []*ssa.Store, lastID, seqI
 		n++
 		construct := fk(fn) + ": " + what
 		isLoad := core.IsFieldLoad(lastID)(val)
-		r.Check(isLoad, "C01.2e-reported-seq-is-lastID", construct, c.pos(in), "value is a load of Topic.lastID", "the id reported to clients is not Topic.lastID: "+val.String())
+		// or the very value the increment stores (`seq := lastID+1` computed once, then `lastID = seq`)
+		isIncrVal := false
+		for _, s := range incr {
+			if core.Strip(val) == core.Strip(s.Val) {
+				isIncrVal = true
+			}
+		}
+		r.Check(isLoad || isIncrVal, "C01.2e-reported-seq-is-lastID", construct, c.pos(in), "value is Topic.lastID after the increment", "the id reported to clients is not Topic.lastID: "+val.String())
 		// the load itself must come after the increment
 		target := func(i ssa.Instruction) bool { return i == in }
 		found, _ := core.PathAvoiding(fn, nil, target, isIncr, nil)
@@ -413,25 +420,44 @@ func (c *Ctx) checkC01StoreLayer() {
 			}
 			r.Check(same, "C01.4b-same-message", construct, c.pos(site), "both adapter calls receive the same *types.Message", "high-water mark and row insert are given different message objects")
 
-			// (5) after success of MessageSave, all returns have nil error
-			g := successGuard(site)
-			pe, _ := core.PassEdges(fn, g)
-			reach := core.ReachFromEdges(fn, pe, nil)
+			// (5) after success of MessageSave (its error result nil, however it is tested later), every
+			// return yields a nil error
 			errIdx := errIndex(fn.Signature)
-			for b := range reach {
-				ret, ok := b.Instrs[len(b.Instrs)-1].(*ssa.Return)
-				if !ok || errIdx < 0 {
-					continue
-				}
-				v := ret.Results[errIdx]
-				construct2 := fk(fn) + ": return after adp.MessageSave succeeded"
-				if core.IsNil(v) {
-					r.OK("C01.5-no-error-after-row-committed", construct2+" [nil]", c.pos(ret), "returns nil error")
-				} else {
-					r.Fail("C01.5-no-error-after-row-committed", construct2+" ["+describeVal(v)+"]", c.pos(ret),
-						"returns a possibly non-nil error after the message row was committed: the topic does not advance lastID and re-issues the same id")
+			callV, isV := site.(ssa.Value)
+			if errIdx < 0 || !isV {
+				continue
+			}
+			var errV ssa.Value = callV
+			if site.Common().Signature().Results().Len() > 1 {
+				errV = nil
+				if refs := callV.Referrers(); refs != nil {
+					for _, ref := range *refs {
+						if ex, ok := ref.(*ssa.Extract); ok && ex.Index == errIndex(site.Common().Signature()) {
+							errV = ex
+						}
+					}
 				}
 			}
+			if errV == nil {
+				r.Fail("C01.5-no-error-after-row-committed", fk(fn)+": error of adp.MessageSave", c.pos(site), "the error result of the row insert is not used: undecided")
+				continue
+			}
+			nRet := 0
+			var badRet ssa.Instruction
+			badVal := ""
+			wr := core.NilWalkAfterWith(fn, site.(ssa.Instruction), core.NilFacts{errV: true}, nil, nil, func(in ssa.Instruction, f core.NilFacts) {
+				ret, ok := in.(*ssa.Return)
+				if !ok {
+					return
+				}
+				nRet++
+				if k, n := core.Nilness(ret.Results[errIdx], f); !(k && n) {
+					badRet, badVal = ret, describeVal(ret.Results[errIdx])
+				}
+			})
+			construct2 := fk(fn) + ": every return after adp.MessageSave succeeded yields a nil error"
+			r.Check(badRet == nil && nRet > 0 && !wr.Overflow, "C01.5-no-error-after-row-committed", construct2, c.pos(site), "",
+				"returns a possibly non-nil error ("+badVal+") after the message row was committed"+posOf(c, badRet)+": the topic does not advance lastID and re-issues the same id")
 		}
 	}
 }
